@@ -88,7 +88,9 @@ def encode_catalog_pair(title, cycle, boot, total, entries, flags106=0, title_to
         s0[0] |= 0x80
     s1[4] = cycle & 0xFF
     s1[5] = 8 * len(entries)
-    s1[6] = ((boot & 3) << 4) | ((total >> 8) & 3) | (flags106 & 0xCC)
+    # bits 8-9 of the sector count; a count >= 1024 sets bit 2 as well ("large disc": bit 10 of the count, which the
+    # geometry prober honours)
+    s1[6] = ((boot & 3) << 4) | ((total >> 8) & 7) | (flags106 & 0xCC)
     s1[7] = total & 0xFF
     for i, e in enumerate(entries):
         off = 8 * (i + 1)
